@@ -18,7 +18,7 @@ var tableKinds = []string{"dense-vector", "sparse-vector", "dense-matrix", "spar
 
 var tableOps = []string{"truncate", "delete-line", "duplicate-line", "delete-field", "duplicate-field", "garbage-field", "swap-lines", "empty",
 	"newlines-only", "missing-header", "index>=length", "negative-index", "header-negative", "header-smaller", "header-garbage", "ragged-row",
-	"gzip-truncated", "gzip-garbage", "flip-byte", "duplicate-index"}
+	"gzip-truncated", "gzip-garbage", "flip-byte", "duplicate-index", "whitespace-line"}
 
 var garbageFields = []string{"abc", "1e", "--1", "1,5", "0x", "1.2.3", "", "-", "+", "e5", "1e999", "9223372036854775808", "1.5", "nan?", "\x00", "½"}
 
@@ -71,6 +71,10 @@ func mutateTable(text string, kind, op string, r *prng.Rand) (out []byte, applie
 			return nil, false
 		}
 		return join(append(append(append([]string{}, lines[:i+1]...), lines[i]), lines[i+1:]...)), true
+	case "whitespace-line":
+		i := r.Intn(len(lines) + 1)
+		ws := r.Pick([]string{" ", "\t", "  ", " \t "})
+		return join(append(append(append([]string{}, lines[:i]...), ws), lines[i:]...)), true
 	case "swap-lines":
 		if len(lines) < 2 {
 			return nil, false
@@ -224,6 +228,9 @@ func classifyTable(kind string, raw []byte) string {
 	for _, l := range strings.Split(string(text), "\n") {
 		if len(l) == 0 {
 			continue
+		}
+		if len(strings.Fields(l)) == 0 {
+			return "whitespace-only-line"
 		}
 		rows = append(rows, strings.Fields(l))
 	}
